@@ -1,6 +1,6 @@
 (* C10 property theorems only. *)
 From Coq Require Import List NArith ZArith Bool.
-From V Require Import lib.Verdict C10.Model C10.Proofs C10.ProofsAmbient.
+From V Require Import lib.Verdict C10.Model C10.Proofs C10.ProofsSort C10.ProofsNs C10.ProofsAmbient.
 
 (* ComposePeerAuthentication followed by GetMutualTLSModeForPort is the precedence rule, for every list of
    policies and every port: port-level entry of the winning workload policy, else that policy's mode, else the
@@ -21,16 +21,28 @@ Theorem C10_selection_is_oldest : forall root l,
 Proof. exact compose_select_spec. Qed.
 Print Assumptions C10_selection_is_oldest.
 
-(* The sidecar inbound resolver over the whole pipeline (initAuthenticationPolicies, getConfigsForWorkload,
-   Compose) is the precedence rule applied to the list getConfigsForWorkload returns.  PARTIAL: that this list's
-   per-level leftmost-oldest policies are the (creation time, name)-oldest applicable policies of the raw
-   policy set ([effective_mode]) is checked by the harness oracle on every generated case, not proved. *)
-Theorem C10_sidecar_is_precedence_partial : forall root all wl_ns labels svc_nss port,
-  sidecar_mode root all wl_ns labels svc_nss port =
-  list_precedence root
-    (configs_for_workload root (st_kept (add_peer_authentication root all)) wl_ns labels svc_nss) port.
-Proof. intros. unfold sidecar_mode. apply compose_is_list_precedence. Qed.
-Print Assumptions C10_sidecar_is_precedence_partial.
+(* The sidecar inbound resolver over the whole pipeline — initAuthenticationPolicies (sort by creation time, name,
+   namespace; one namespace-/mesh-level policy kept per namespace), getConfigsForWorkload, ComposePeerAuthentication,
+   GetMutualTLSModeForPort — returns the effective mode of the specification for every policy set (any order,
+   any ties), workload and port: port-level over workload-selector over namespace over mesh, the
+   (creation time, name, namespace)-oldest applicable policy winning within a level, UNSET inheriting, default
+   PERMISSIVE.  Services passed by the caller must be of the workload's own or the root namespace. *)
+Theorem C10_sidecar_is_precedence : forall root all wl_ns labels svc_nss port,
+  (forall n, In n svc_nss -> n = wl_ns \/ n = root) ->
+  sidecar_mode root all wl_ns labels svc_nss port = effective_mode root all wl_ns labels port.
+Proof. exact sidecar_is_precedence. Qed.
+Print Assumptions C10_sidecar_is_precedence.
+
+(* ... hence the client-side resolver (mtls_checker) computes the same effective mode *)
+Theorem C10_client_is_precedence : forall root all ns labels port,
+  client_mode root all ns labels port = effective_mode root all ns labels port /\
+  (check_mtls_enabled root all ns labels port = true <-> effective_mode root all ns labels port <> MDisable).
+Proof.
+  intros. assert (client_mode root all ns labels port = effective_mode root all ns labels port) as H
+    by (unfold client_mode; apply sidecar_is_precedence; intros ? []).
+  split; [exact H|]. rewrite <- H. apply check_mtls_enabled_iff.
+Qed.
+Print Assumptions C10_client_is_precedence.
 
 (* Sidecar inbound listeners and client-side automatic mTLS use the same mode on every port (services of the
    workload's own or the root namespace do not change the lookup), and the client sends mTLS iff that mode is
@@ -46,6 +58,15 @@ Proof.
   apply check_mtls_enabled_iff.
 Qed.
 Print Assumptions C10_resolvers_agree.
+
+(* The namespace/mesh resolver (GetNamespaceMutualTLSMode behind BestEffortInferServiceMTLSMode, used for the
+   client-side hint) returns the effective mode of every port of a workload that no workload-selector policy
+   applies to. *)
+Theorem C10_namespace_resolver_agrees : forall root all wl_ns labels port,
+  filter (workload_level_for root wl_ns labels) all = [] ->
+  best_effort_infer (add_peer_authentication root all) wl_ns = effective_mode root all wl_ns labels port.
+Proof. exact namespace_resolver_is_precedence. Qed.
+Print Assumptions C10_namespace_resolver_agrees.
 
 (* The generated inbound chain set enforces the mode, for every mode and port protocol. *)
 Theorem C10_chains_enforce : forall m p, chains_enforce m p = true.
@@ -84,13 +105,14 @@ Theorem C10_ambient_strict_ports_refuted :
 Proof. exact ambient_strict_ports_refuted. Qed.
 Print Assumptions C10_ambient_strict_ports_refuted.
 
-(* the four confirmed defect families, each with its minimal witness *)
-Theorem C10_ambient_K2_refuted :
-  convert_peer_authentication 0 (mk_wl MPermissive [(8080%N, MStrict)]) None (Some (mk_root MStrict)) = None /\
-  effective_mode 0 k2_world 1 w_lbl 8080 = MStrict /\ ambient_denies 0 k2_world 1 w_lbl false 8080 = false.
-Proof. split; [exact k2_converter_returns_nil|exact k2_refutes]. Qed.
-Print Assumptions C10_ambient_K2_refuted.
+(* former finding K2, repaired by /repo 06bf447: the witness now behaves as the property says *)
+Theorem C10_ambient_K2_repaired :
+  effective_mode 0 k2_world 1 w_lbl 8080 = MStrict /\ ambient_denies 0 k2_world 1 w_lbl false 8080 = true /\
+  ambient_denies 0 k2_world 1 w_lbl false 80 = false.
+Proof. exact (proj2 k2_repaired). Qed.
+Print Assumptions C10_ambient_K2_repaired.
 
+(* the three confirmed defect families that remain, each with its minimal witness *)
 Theorem C10_ambient_disable_port_refuted :
   effective_mode 0 dis_world 1 w_lbl 8080 = MDisable /\ ambient_denies 0 dis_world 1 w_lbl false 8080 = true.
 Proof. exact dis_refutes. Qed.
@@ -107,7 +129,7 @@ Proof. exact k9_refutes. Qed.
 Print Assumptions C10_ambient_K9_refuted.
 
 (* PARTIAL (bound in the statement): for one workload policy under any namespace/mesh policy (nil selectors),
-   every port map over the keys {80,443,8080} and every probed port, outside the three defect conditions on
+   every port map over the keys {80,443,8080} and every probed port, outside the two defect conditions on
    the winning policies, the ambient policies reject an unauthenticated peer iff the effective mode is STRICT,
    and never reject an authenticated one. *)
 Theorem C10_ambient_strict_ports_partial : forall rm nm wm ports port,
